@@ -464,4 +464,70 @@ def specScript : List Op → List UInt8 → List Res
     | some (.error e) => [.panic e]
     | some (.ok (o, r)) => .out o :: specScript ops r
 
+/-! ### The property's domain: valid tokens, no read past the end
+
+C08 quantifies over inputs built from *valid* tokens and scripts that never read a token past the end. The
+specification above also answers outside that domain (garbage or overflowing integer tokens, token reads with
+nothing left), because the model mirrors what the release build does there; those answers are *not* part of the
+property. `inDomOp` says whether an operation is inside the domain; the driver constrains (`S`) only the prefix of
+a script that is, and prints `~` from the first operation outside it. The definitions are independent of
+`digitStep` (plain positional value, range test). -/
+
+/-- Positional value of a digit string (no checks). -/
+def decVal (ds : List UInt8) : Nat := ds.foldl (fun a c => a * 10 + (c.toNat - 48)) 0
+
+/-- Non-empty and all ASCII digits. -/
+def allDigits (ds : List UInt8) : Bool := !ds.isEmpty && ds.all (fun c => 48 ≤ c && c ≤ 57)
+
+/-- `tok` is `-?[0-9]+` (`-` only for signed types) and its value is representable in `t`. -/
+def validIntTok (t : IntTy) (tok : List UInt8) : Bool :=
+  match tok with
+  | 45 :: ds => t.signed && allDigits ds && t.fits (-(decVal ds : Int))
+  | ds => allDigits ds && t.fits (decVal ds : Int)
+
+/-- The value the property promises for a valid integer token. -/
+def tokValue (tok : List UInt8) : Int :=
+  match tok with
+  | 45 :: ds => -(decVal ds : Int)
+  | ds => (decVal ds : Int)
+
+def inDomAtom : Atom → List UInt8 → Bool
+  | .int t, rest => validIntTok t (specString rest).1
+  | .str, rest => !(specString rest).1.isEmpty
+  | .chr, rest => !(specSkipWs rest).isEmpty
+
+def inDomTuple : List Atom → List UInt8 → Bool
+  | [], _ => true
+  | a :: as, rest =>
+    inDomAtom a rest &&
+    match specAtom a rest with
+    | some (.ok (_, r)) => inDomTuple as r
+    | _ => false
+
+def inDomVec (as : List Atom) : Nat → List UInt8 → Bool
+  | 0, _ => true
+  | n + 1, rest =>
+    inDomTuple as rest &&
+    match specTuple as rest with
+    | some (.ok (_, r)) => inDomVec as n r
+    | _ => false
+
+def inDomOp : Op → List UInt8 → Bool
+  | .read a, rest => inDomAtom a rest
+  | .tuple as, rest => inDomTuple as rest
+  | .vec as n, rest => inDomVec as n rest
+  | .line, _ => true
+  | .lines, _ => true
+  | .eof, _ => true
+
+/-- Number of leading operations of a script that are inside the domain. -/
+def domPrefix : List Op → List UInt8 → Nat
+  | [], _ => 0
+  | op :: ops, rest =>
+    if inDomOp op rest then
+      match specOp op rest with
+      | some (.ok (_, r)) => 1 + domPrefix ops r
+      | _ => 0
+    else 0
+
 end Rlib.Reader
